@@ -284,6 +284,8 @@ class Kernel:
             return StatResult(_stat.S_IFDIR | 0o755)
         if p in self.links:
             t = self.links[p]
+            if isinstance(t, str) and not t.startswith("/") and "/" in t:       # a relative target (`../bond0`) is resolved from the link's directory
+                t = _os.path.normpath(_os.path.join(_os.path.dirname(p), t))
             return self.stat(t) if isinstance(t, str) else StatResult()
         raise oserr(errno.ENOENT, p)
 
